@@ -231,8 +231,8 @@ def main(argv=None):
             for h in hit:
                 h.setdefault("solver", {"verdict": "sat", "backend": ob.get("backend"), "model": ob.get("model"), "vc": ob["name"]})
             continue
-        if ob.get("aux"):
-            undecided.append({"obligation": ob["name"], "reason": "auxiliary obligation refuted and no witness reproduced: proof maintenance needed",
+        if ob.get("aux") and ob["name"] not in lock.get(pid, []):
+            undecided.append({"obligation": ob["name"], "reason": "auxiliary obligation refuted, not in the lock of discharged obligations and no witness reproduced: proof maintenance needed",
                               "model": ob.get("model")})
             continue
         violations.append({"obligation": ob["name"], "what": "obligation refuted by %s" % ob.get("backend"),
